@@ -186,6 +186,8 @@ class Env:
             return SV('int', z3.Length(v.t))
         if isinstance(v, SetV):
             return len(v.items)
+        if isinstance(v, Obj) and v.cls == 'SymSeq' and getattr(v, 'kind', None) in ('tuple', 'list'):
+            return SV('int', v.n)
         if isinstance(v, Obj):
             m = it.getattr(v, '__len__')
             return it.call(m, [], {})
@@ -229,6 +231,8 @@ class Env:
         if c.name == 'Sequence':
             if isinstance(v, (tuple, list, str, bytes, SeqV)) or is_str(v) or is_bytes(v):
                 return True
+            if isinstance(v, Obj) and v.cls == 'SymSeq':
+                return getattr(v, 'kind', None) in ('tuple', 'list')
             if v is None or is_int(v) or is_boolv(v) or is_floatv(v) or isinstance(v, (dict, SetV)):
                 return False
         if c.name == 'OrderedDict':
